@@ -28,7 +28,7 @@ import mulgrids
 import t2incons
 
 CASE_TIMEOUT = 5          # seconds per generated case (each takes milliseconds)
-SHIPPED_TIMEOUT = 150     # seconds per shipped file
+SHIPPED_TIMEOUT = 45      # seconds per shipped file (the largest takes about 6)
 PER_CATEGORY_CAP = 6
 
 
@@ -104,7 +104,7 @@ def snapshot(inc):
     blocks = []
     for b in inc._blocklist:
         perm = None if b.permeability is None else [float(x) for x in b.permeability]
-        blocks.append({'name': b.block, 'variable': [float(v) for v in b.variable],
+        blocks.append({'name': b.block, 'variable': [None if v is None else float(v) for v in b.variable],
                        'porosity': None if b.porosity is None else float(b.porosity),
                        'permeability': perm, 'nseq': b.nseq, 'nadd': b.nadd})
     timing = None if inc.timing is None else dict(inc.timing)
@@ -625,43 +625,81 @@ class _Timeout(BaseException):
     pass
 
 
+class _Deadline(object):
+    armed = False
+
+
 def _alarm(signum, frame):
-    raise _Timeout()
+    if _Deadline.armed:
+        raise _Timeout()
+
+
+def _disarm():
+    while True:
+        try:
+            _Deadline.armed = False
+            signal.setitimer(signal.ITIMER_REAL, 0)
+            return
+        except _Timeout:
+            continue
+
+
+def with_deadline(seconds, fn):
+    """Runs fn(); returns False if it did not return in time.  The timer keeps firing (every
+    0.1 s after the deadline) because the library's number readers contain bare `except:`
+    clauses that swallow an exception raised from a signal handler."""
+    signal.signal(signal.SIGALRM, _alarm)
+    try:
+        try:
+            _Deadline.armed = True
+            signal.setitimer(signal.ITIMER_REAL, seconds, 0.1)
+            fn()
+            return True
+        finally:
+            _disarm()
+    except _Timeout:
+        _disarm()
+        return False
 
 
 def worker(task):
     kind, payload, tier, seed, tmpdir = task
     rec = Recorder()
     sample = None
-    signal.signal(signal.SIGALRM, _alarm)
     with contextlib.redirect_stdout(io.StringIO()):
         if kind == 'shipped':
             rel, numvar, nrec = payload
-            signal.alarm(SHIPPED_TIMEOUT)
-            try:
-                run_shipped(rel, numvar, nrec, rec, tmpdir)
-            except _Timeout:
+            def ship():
+                try:
+                    run_shipped(rel, numvar, nrec, rec, tmpdir)
+                except Exception as e:
+                    rec.fail('exception [shipped %s]' % rel, 'unexpected %s: %s' % (type(e).__name__, e),
+                             {'file': 'tests/incon/' + rel, 'num_variables': numvar})
+            if not with_deadline(SHIPPED_TIMEOUT, ship):
                 rec.fail('timeout [shipped %s]' % rel, 'no result after %d s' % SHIPPED_TIMEOUT,
                          {'file': 'tests/incon/' + rel, 'num_variables': numvar})
-            finally:
-                signal.alarm(0)
         else:
             lo, hi, sub = payload
             ntimeouts = 0
             for idx in range(lo, hi):
                 rnd = random.Random((seed * 1000003 + idx) * 7 + {'main': 0, 'toughreact-noperm': 1, 'neg3exp': 2}[sub])
                 spec = make_spec(rnd, idx, tier, sub)
-                signal.alarm(CASE_TIMEOUT)
-                try:
-                    inc = build(spec)
-                    round_trip(inc, spec['reset'], spec['num_variables'], spec_cfg(spec), rec, spec_tag(spec), tmpdir)
-                except _Timeout:
+
+                def one():
+                    try:
+                        inc = build(spec)
+                        round_trip(inc, spec['reset'], spec['num_variables'], spec_cfg(spec), rec, spec_tag(spec), tmpdir)
+                    except Exception as e:
+                        import traceback
+                        c = spec_cfg(spec)
+                        c['blocks'] = spec['blocks'][:3]
+                        rec.fail('exception ' + spec_tag(spec), 'unexpected %s: %s (%s)' %
+                                 (type(e).__name__, e, traceback.format_exc().strip().split('\n')[-3].strip()), c)
+                if not with_deadline(CASE_TIMEOUT, one):
                     ntimeouts += 1
                     c = spec_cfg(spec)
                     c['blocks'] = spec['blocks'][:3]
                     rec.fail('timeout ' + spec_tag(spec), 'write/read/write does not return within %d s' % CASE_TIMEOUT, c)
-                finally:
-                    signal.alarm(0)
                 rec.distinct.add(descriptor(spec))
                 if sample is None and sub == 'main' and idx % 97 == 0 and spec['blocks']:
                     s = spec_cfg(spec)
@@ -680,7 +718,7 @@ def main():
     t0 = time.time()
     tmpdir = tempfile.mkdtemp(prefix='pytough-', dir='/var/tmp')
     try:
-        nmain = 3456 if tier == 'quick' else 207360
+        nmain = 3456 if tier == 'quick' else 138240
         nside = 60 if tier == 'quick' else 1200
         chunk = 48 if tier == 'quick' else 480
         tasks = [('shipped', s, tier, seed, tmpdir) for s in SHIPPED]
